@@ -138,6 +138,19 @@ func c08(r *Run) {
 	for _, site := range findIns(rw2r, func(i ssa.Instruction) bool { return isCall(i, ro.triggerWrite) }) {
 		r.precedes("C08.R2:rw2r-order", "rw2r removes write interest before signalling the flusher (which may re-arm it at once)", rw2r, site, func(i ssa.Instruction) bool { return ro.isControl(i, ro.evRW2R) }, nil, "Control(PollRW2R) dominates triggerWrite")
 	}
+	// ... and it always signals: the flusher parked in waitFlush has no other wake-up on the success path
+	r.mustPass("C08.R2:rw2r-always-signals", "rw2r wakes the parked flusher on every path (the poller calls it when the output buffer was drained; nothing else completes a waiting Flush successfully)", rw2r, nil, []Start{Entry(rw2r)}, func(i ssa.Instruction) bool { return isCall(i, ro.triggerWrite) }, nil, nil, "triggerWrite(nil) on every path")
+	// and the drain path calls it when the buffer is empty
+	{
+		outAck := w.MustFn("(*connection).outputAck")
+		starts := edgesEstablishing(outAck, func(v ssa.Value) (bool, bool) {
+			if isEmptyCall(v) {
+				return true, true
+			}
+			return false, false
+		})
+		r.mustPass("C08.R2:drained-means-rw2r", "when the poller's send emptied the output buffer, outputAck calls rw2r() on every path", outAck, nil, starts, func(i ssa.Instruction) bool { return isCall(i, rw2r) }, nil, nil, "rw2r() on every path from IsEmpty()==true")
+	}
 	// waitFlush returns only what was received from the trigger, or a timeout error
 	{
 		nr := 0
